@@ -52,10 +52,42 @@ struct Ck<'a> {
     p: Punct,
     fo: ParseFloatOptions,
     io: ParseIntegerOptions,
+    /// the catalogued format that differs only in flags documented as float-only
+    int_twin: Option<CatFmt>,
+}
+
+/// `d` with every flag the documentation marks "Parse Float" only reset to the STANDARD value
+fn int_projection(d: &FmtDesc) -> FmtDesc {
+    let mut p = d.clone();
+    let st = FmtDesc::standard();
+    p.name = "";
+    p.required_fraction_digits = st.required_fraction_digits;
+    p.required_exponent_digits = st.required_exponent_digits;
+    p.no_exponent_notation = st.no_exponent_notation;
+    p.no_positive_exponent_sign = st.no_positive_exponent_sign;
+    p.required_exponent_sign = st.required_exponent_sign;
+    p.no_exponent_without_fraction = st.no_exponent_without_fraction;
+    p.required_exponent_notation = st.required_exponent_notation;
+    p.case_sensitive_exponent = st.case_sensitive_exponent;
+    p.no_float_leading_zeros = st.no_float_leading_zeros;
+    p.no_special = st.no_special;
+    p.case_sensitive_special = st.case_sensitive_special;
+    p
+}
+
+fn find_int_twin(all: &[CatFmt], f: &CatFmt) -> Option<CatFmt> {
+    let want = int_projection(&f.desc);
+    all.iter()
+        .find(|c| c.lexical_valid && c.desc.name != f.desc.name && {
+            let mut d = c.desc.clone();
+            d.name = "";
+            d == want
+        })
+        .cloned()
 }
 
 impl<'a> Ck<'a> {
-    fn new(rep: &'a Report, f: &CatFmt) -> Self {
+    fn new(rep: &'a Report, f: &CatFmt, all: &[CatFmt]) -> Self {
         let ec = exp_char(&f.desc);
         let mut p = Punct::standard();
         p.exponent = ec;
@@ -66,6 +98,7 @@ impl<'a> Ck<'a> {
             p,
             fo: ParseFloatOptions::builder().exponent(ec).build_unchecked(),
             io: ParseIntegerOptions::new(),
+            int_twin: find_int_twin(all, f),
         }
     }
 
@@ -115,7 +148,7 @@ impl<'a> Ck<'a> {
         }
     }
 
-    fn int<T: Int>(&mut self, f: &CatFmt, fns: IntFns<T>, s: &[u8]) {
+    fn int<T: Int>(&mut self, f: &CatFmt, fns: IntFns<T>, twin: Option<(&'static str, IntFns<T>)>, s: &[u8]) {
         let key = || format!("{}|{}|{}", f.desc.name, T::NAME, hex(s));
         let g = integer_complete(&f.desc, s, T::TY.signed);
         self.fam.calls += 1;
@@ -127,6 +160,24 @@ impl<'a> Ck<'a> {
                 return;
             }
         };
+        // flags documented as float-only must not change what an integer parser returns
+        if let Some((tw_name, tf)) = twin {
+            self.fam.calls += 1;
+            if let Ok(r2) = guarded(|| (tf.parse)(s, &io)) {
+                let same = match (&r, &r2) {
+                    (Ok(a), Ok(b)) => a.to_ival().norm() == b.to_ival().norm(),
+                    (Err(a), Err(b)) => a == b,
+                    _ => false,
+                };
+                if !same {
+                    self.rep.violation(
+                        format!("{}|{}|inttwin|{}", f.desc.name, T::NAME, hex(s)),
+                        format!("C12 [{}] parse::<{}>({:?}) = {:?} but under [{}], which differs only in flags documented as float-only, it is {:?}", f.desc.name, T::NAME, show_trunc(s), r.as_ref().map(|v| v.to_string()), tw_name, r2.as_ref().map(|v| v.to_string())),
+                    );
+                    return;
+                }
+            }
+        }
         match (g, r) {
             (IntGram::Unspecified, _) => self.fam.bump("unspecified"),
             (IntGram::Reject, Err(_)) => {}
@@ -174,10 +225,11 @@ impl<'a> Ck<'a> {
         }
         self.float::<f64>(f, f.f64, s, &g);
         self.float::<f32>(f, f.f32, s, &g);
-        self.int::<u8>(f, f.u8, s);
-        self.int::<i32>(f, f.i32, s);
-        self.int::<i64>(f, f.i64, s);
-        self.int::<u128>(f, f.u128, s);
+        let tw = self.int_twin.clone();
+        self.int::<u8>(f, f.u8, tw.as_ref().map(|t| (t.desc.name, t.u8)), s);
+        self.int::<i32>(f, f.i32, tw.as_ref().map(|t| (t.desc.name, t.i32)), s);
+        self.int::<i64>(f, f.i64, tw.as_ref().map(|t| (t.desc.name, t.i64)), s);
+        self.int::<u128>(f, f.u128, tw.as_ref().map(|t| (t.desc.name, t.u128)), s);
     }
     fn done(self) {
         self.fam.finish();
@@ -199,11 +251,12 @@ fn main() {
     }
     if let Some(key) = &cli.replay {
         let p: Vec<&str> = key.split('|').collect();
-        let s = unhex(p[2]);
-        for f in catalogue(&[]) {
+        let s = unhex(if p[2] == "inttwin" { p[3] } else { p[2] });
+        let all = catalogue(&[]);
+        for f in all.iter() {
             if f.desc.name == p[0] {
-                let mut c = Ck::new(&rep, &f);
-                c.check(&f, &s);
+                let mut c = Ck::new(&rep, f, &all);
+                c.check(f, &s);
                 c.done();
             }
         }
@@ -216,7 +269,7 @@ fn main() {
     let idx: Vec<usize> = (0..cat.len()).collect();
     par_items(&idx, cli.threads, |_, &i| {
         let f = &cat[i];
-        let mut c = Ck::new(&rep, f);
+        let mut c = Ck::new(&rep, f, &cat);
         let alpha = sigma(&f.desc);
         let aref: Vec<&[u8]> = alpha.iter().map(|v| &v[..]).collect();
         gen::for_each_string(&aref, depth, &mut |s: &[u8]| c.check(f, s));
